@@ -1,11 +1,12 @@
 #!/venv/bin/python
 """Generate the TLC configurations of the core spec (one family per property). Run from spec/core."""
-ALL = ["CreateGroup", "CreateObject", "AddData", "CreateWithUid", "Rename", "SetFlag", "SetVal", "Move", "AddToGroup",
+ALL = ["CreateGroup", "CreateObject", "AddData", "CreateWithUid", "Rename", "SetFlag", "SetVal", "Move", "MoveSame", "AddToGroup",
+       "AddDataFails", "StripOpt", "SaveAs", "Helper",
        "RemoveFromGroup", "RemovePG", "RemoveViaWorkspace", "RemoveViaParent", "DropRef", "Collect", "Purge",
        "LookupDead", "Copy", "Close", "Open", "CallClosed"]
-INV_ASBUILT = ["TypeOK", "ReopenEqualsLive", "LinksToNodes", "OneParent", "PGPropsAreChildren", "WriteThrough",
+INV_ASBUILT = ["TypeOK", "DirtyOnlyInRW", "ReopenEqualsLive", "LinksToNodes", "OneParent", "PGPropsAreChildren", "WriteThrough",
                "NoDanglingPG", "RegistryMatchesMemory"]
-PROPS = ["Footprint", "FrozenFile"]
+PROPS = ["Footprint", "FrozenFile", "OptStaysStripped"]
 
 
 def cfg(name, ng, no, nd, np_, acts, depth, devs=("CloseKeepsOrphans",), export=True, extra_inv=(), names=("a", "b"),
@@ -29,48 +30,46 @@ def minus(*drop):
 
 
 GC = ["DropRef", "Collect", "Purge", "LookupDead"]
+NEW = ["MoveSame", "AddDataFails", "StripOpt", "SaveAs", "Helper"]
+BASE = minus("CreateWithUid", "CallClosed", *NEW)
 # --- C01: histories of create/assign/rename/move/copy/delete with close/re-open and GC points
-cfg("C01_quick", 1, 1, 1, 1, minus("CreateWithUid", "CallClosed", "SetFlag"), 7, names=("a",), vals=(1, 2))
-cfg("C01_thorough", 2, 1, 2, 1, minus("CreateWithUid", "CallClosed"), 6, names=("a", "b"))
-# --- C02: layout of every closed file: removals, re-parenting, copies, closes
-cfg("C02_quick", 2, 1, 1, 1, ["CreateGroup", "CreateObject", "AddData", "Move", "AddToGroup", "RemoveViaWorkspace",
-                              "RemoveViaParent", "Copy", "Close", "Open"] + GC, 6, names=("a",), vals=(1,))
-cfg("C02_thorough", 2, 2, 2, 2, ["CreateGroup", "CreateObject", "AddData", "Move", "AddToGroup", "RemoveFromGroup",
-                                 "RemoveViaWorkspace", "RemoveViaParent", "Copy", "Close", "Open"] + GC, 6,
-    names=("a",), vals=(1,))
+cfg("C01_quick", 1, 1, 1, 1, [a for a in BASE if a != "SetFlag"] + ["MoveSame"], 7, names=("a",), vals=(1, 2))
+cfg("C01_thorough", 2, 1, 2, 1, BASE + ["MoveSame", "AddDataFails", "SaveAs"], 6, names=("a", "b"))
+# --- C02: layout of every closed file: removals, re-parenting, copies, failed writes, closes
+C02A = ["CreateGroup", "CreateObject", "AddData", "Move", "MoveSame", "AddToGroup", "RemoveViaWorkspace", "RemoveViaParent",
+        "Copy", "Close", "Open", "AddDataFails"] + GC
+cfg("C02_quick", 2, 1, 1, 1, C02A, 6, names=("a",), vals=(1,))
+cfg("C02_thorough", 2, 2, 2, 2, C02A + ["RemoveFromGroup", "SaveAs"], 6, names=("a",), vals=(1,))
 # --- C05: removal through both entry points; data in 0/1/2 property groups; survivors keep working
-cfg("C05_quick", 1, 1, 2, 2, ["CreateGroup", "CreateObject", "AddData", "AddToGroup", "SetFlag", "RemoveViaWorkspace",
-                              "RemoveViaParent", "RemovePG", "Close", "Open", "Copy"] + GC, 6, names=("a", "b"), vals=(1,))
-cfg("C05_thorough", 2, 1, 2, 2, ["CreateGroup", "CreateObject", "AddData", "AddToGroup", "RemoveFromGroup", "SetFlag",
-                                 "RemoveViaWorkspace", "RemoveViaParent", "RemovePG", "Close", "Open", "Copy", "Move"] + GC,
-    7, names=("a", "b"), vals=(1,))
+C05A = ["CreateGroup", "CreateObject", "AddData", "AddToGroup", "SetFlag", "RemoveViaWorkspace", "RemoveViaParent", "RemovePG",
+        "Close", "Open", "Copy"] + GC
+cfg("C05_quick", 1, 1, 2, 2, C05A, 5, names=("a", "b"), vals=(1,))
+cfg("C05_thorough", 2, 1, 2, 2, C05A + ["RemoveFromGroup", "Move"], 7, names=("a", "b"), vals=(1,))
 # --- C06: identifiers: explicit uids, collisions with live entities of any kind, re-creation, copies
-cfg("C06_quick", 2, 1, 1, 1, ["CreateGroup", "CreateObject", "AddData", "CreateWithUid", "RemoveViaWorkspace",
-                              "RemoveViaParent", "Copy", "Close", "Open"] + GC, 6, names=("a",), vals=(1,))
-cfg("C06_thorough", 2, 2, 2, 1, ["CreateGroup", "CreateObject", "AddData", "CreateWithUid", "RemoveViaWorkspace",
-                                 "RemoveViaParent", "Copy", "Close", "Open", "AddToGroup"] + GC, 6, names=("a",), vals=(1,))
-# --- C09: every single mutation applied to every reachable state; footprint
-cfg("C09_quick", 1, 1, 2, 1, minus("CreateWithUid", "CallClosed", "LookupDead"), 5, names=("a", "b"), vals=(1, 2))
-cfg("C09_thorough", 2, 1, 2, 2, minus("CreateWithUid", "CallClosed"), 6, names=("a", "b"), vals=(1, 2))
-# --- C11: close / abort at every point, calls on a closed workspace, re-open
-cfg("C11_quick", 1, 1, 1, 1, ["CreateGroup", "CreateObject", "AddData", "SetVal", "Rename", "RemoveViaWorkspace",
-                              "RemoveViaParent", "Close", "Open", "CallClosed", "AddToGroup"], 6, names=("a", "b"))
-cfg("C11_thorough", 2, 1, 2, 1, ["CreateGroup", "CreateObject", "AddData", "SetVal", "Rename", "Move", "Copy",
-                                 "RemoveViaWorkspace", "RemoveViaParent", "Close", "Open", "CallClosed", "AddToGroup",
-                                 "Collect", "DropRef"], 7, names=("a", "b"))
+C06A = ["CreateGroup", "CreateObject", "AddData", "CreateWithUid", "RemoveViaWorkspace", "RemoveViaParent", "Copy", "Close",
+        "Open"] + GC
+cfg("C06_quick", 2, 1, 1, 1, C06A, 6, names=("a",), vals=(1,))
+cfg("C06_thorough", 2, 2, 2, 1, C06A + ["AddToGroup"], 6, names=("a",), vals=(1,))
+# --- C09: every single mutation applied to every reachable state; footprint; files with omitted optional attributes
+cfg("C09_quick", 1, 1, 1, 1, [a for a in BASE if a != "LookupDead"] + ["MoveSame", "StripOpt"], 6, names=("a", "b"), vals=(1, 2))
+cfg("C09_thorough", 2, 1, 2, 2, BASE + ["MoveSame", "StripOpt", "AddDataFails"], 6, names=("a", "b"), vals=(1, 2))
+# --- C11: close / abort at every point (also after a failed operation), calls on a closed workspace, re-open,
+#          save_as, fetch_active_workspace re-opening in another mode
+C11A = ["CreateGroup", "CreateObject", "AddData", "SetVal", "Rename", "RemoveViaWorkspace", "RemoveViaParent", "Close", "Open",
+        "CallClosed", "AddDataFails", "SaveAs", "Helper"]
+cfg("C11_quick", 1, 1, 1, 1, C11A, 5, names=("a", "b"))
+cfg("C11_thorough", 2, 1, 2, 1, C11A + ["Move", "Copy", "AddToGroup", "Collect", "DropRef"], 6, names=("a", "b"))
 # --- C12: copies of data / objects / groups, deep and shallow, then edits of copy and source, re-open
-cfg("C12_quick", 2, 2, 2, 2, ["CreateGroup", "CreateObject", "AddData", "AddToGroup", "Copy", "SetVal", "Rename",
-                              "Close", "Open"], 5, names=("a", "b"), vals=(1, 2))
-cfg("C12_thorough", 3, 2, 4, 2, ["CreateGroup", "CreateObject", "AddData", "AddToGroup", "Copy", "SetVal", "Rename",
-                                 "SetFlag", "Move", "Close", "Open"], 7, names=("a", "b"), vals=(1, 2))
+C12A = ["CreateGroup", "CreateObject", "AddData", "AddToGroup", "Copy", "SetVal", "Rename", "Close", "Open"]
+cfg("C12_quick", 2, 2, 2, 2, C12A, 5, names=("a", "b"), vals=(1, 2))
+cfg("C12_thorough", 3, 2, 4, 2, C12A + ["SetFlag", "Move"], 6, names=("a", "b"), vals=(1, 2))
 # --- random simulation with larger constants (thorough tiers): long behaviours, more entities
 cfg("Sim_all", 3, 2, 4, 2, minus("CallClosed"), 60, names=("a", "b"), vals=(1, 2))
-cfg("Sim_remove", 3, 2, 4, 2, ["CreateGroup", "CreateObject", "AddData", "AddToGroup", "RemoveFromGroup", "SetFlag", "Move",
-                               "RemoveViaWorkspace", "RemoveViaParent", "RemovePG", "Close", "Open", "Copy", "CreateWithUid"] + GC,
-    60, names=("a", "b"), vals=(1, 2))
+cfg("Sim_remove", 3, 2, 4, 2, C05A + ["RemoveFromGroup", "Move", "MoveSame", "CreateWithUid", "AddDataFails"], 60,
+    names=("a", "b"), vals=(1, 2))
 # --- Ideal design: no deviation, every invariant incl. NoOrphansWhenClosed must hold (no export)
-cfg("Ideal_quick", 1, 1, 2, 1, minus("CallClosed"), 6, devs=(), export=False, extra_inv=("NoOrphansWhenClosed",))
-cfg("Ideal_thorough", 2, 1, 2, 2, minus("CallClosed"), 7, devs=(), export=False, extra_inv=("NoOrphansWhenClosed",))
+cfg("Ideal_quick", 1, 1, 2, 1, minus("CallClosed"), 5, devs=(), export=False, extra_inv=("NoOrphansWhenClosed",))
+cfg("Ideal_thorough", 2, 1, 2, 2, minus("CallClosed"), 6, devs=(), export=False, extra_inv=("NoOrphansWhenClosed",))
 # --- negative control: the as-built close violates NoOrphansWhenClosed
-cfg("AsBuilt_orphans", 1, 1, 1, 1, minus("CallClosed"), 6, export=False, extra_inv=("NoOrphansWhenClosed",))
+cfg("AsBuilt_orphans", 1, 1, 1, 1, minus("CallClosed", *NEW), 6, export=False, extra_inv=("NoOrphansWhenClosed",))
 print("ok")
